@@ -39,7 +39,7 @@ ENGINE = "direct"
 TECHNIQUE = "totality + output scan of prettify_message over all views; DNS view round trip against an independent RFC 1035 decoder"
 BUDGET = {"quick": (2600, 17), "thorough": (200_000, 210)}
 WORKERS = {"quick": 2, "thorough": 16}
-REQUIRED = ["render_total", "render_no_control", "dns_reencode"]
+REQUIRED = ["render_total", "render_no_control", "dns_reencode", "dns_roundtrip_equal"]
 RULE = (
     "case = (body generator among random/text/JSON/GraphQL/XML-HTML/CSS/JS/protobuf/gRPC/MQTT/multipart/urlencoded/PNG-GIF-JPEG-ICO/"
     "zip/msgpack/socket.io/HTTP3/WBXML/DNS, optional byte-level mutation, message wrapper http-req/http-resp/tcp/udp/ws/dns, "
@@ -190,9 +190,31 @@ def idna_ok(lab: bytes):
         return False
 
 
-def name_problem(n):
+def yaml_escaped(c):
+    """characters a YAML emitter must write as an escape sequence inside a double-quoted scalar"""
+    o = ord(c)
+    return o < 0x20 and c not in "\t\n" or 0x7F <= o <= 0x9F or c in '"\\\u2028\u2029\ufeff' or 0xD800 <= o <= 0xDFFF or o in (0xFFFE, 0xFFFF)
+
+
+FOLD = "dns-view-yaml-fold-after-escape-inserts-space"
+
+
+def fold_explains(a: bytes, b: bytes):
+    """ruamel folds a long double-quoted scalar right after an escape sequence; loading turns that fold into a space.
+    Predicate: the original text is long, has a must-escape character beyond the first ~50 characters, and the re-encoded
+    text equals the original up to inserted spaces."""
+    try:
+        t = a.decode("utf-8")
+    except UnicodeDecodeError:
+        return False
+    return len(t) > 60 and any(yaml_escaped(c) for c in t[50:-1]) and a != b and b.replace(b" ", b"") == a.replace(b" ", b"")
+
+
+def name_problem(n, bn=None):
     if any(b"." in lab for lab in n):
         return "dns-label-contains-dot"
+    if bn is not None and fold_explains(b".".join(n), b".".join(bn)):
+        return FOLD
     return None
 
 
@@ -228,15 +250,19 @@ def classify_rr(a, b):
     if (t, k, ttl) != (bt, bk, bttl):
         return None
     if n != bn:
-        return name_problem(n)
+        return name_problem(n, bn)
     # only RDATA differs
-    for x in rdata_names(rd):
-        if name_problem(x):
-            return name_problem(x)
+    bnames = rdata_names(brd)
+    for i, x in enumerate(rdata_names(rd)):
+        p = name_problem(x, bnames[i] if i < len(bnames) else None)
+        if p:
+            return p
     raw = rd[1] if rd[0] == "opaque" else None
     if t == 16 and raw is not None:
         if not utf8_ok(raw):
             return "dns-view-txt-not-utf8"  # hex fallback text is stored back verbatim as the TXT data
+        if fold_explains(raw, brd[1] if brd[0] == "opaque" else b""):
+            return FOLD
     if t in (2, 5, 12):
         if raw is not None or any(not idna_ok(lab) for x in rdata_names(rd) for lab in x):
             return "dns-view-malformed-name-rdata"  # "0x.. (invalid .. data)" is packed back as if it were a domain name
@@ -248,8 +274,6 @@ def classify_rr(a, b):
         tgt, keys = info
         if name_problem(tgt):
             return name_problem(tgt)
-        if len(set(keys)) != len(keys):
-            return "dns-https-duplicate-svcparam-key"
         return None
     if t in MITM_DECOMPRESS and any(c >= 0xC0 for c in non_name_bytes(rd)):
         # integer / text / opaque RDATA bytes with the two top bits set are taken for compression pointers by unpack
@@ -264,7 +288,7 @@ def classify_dns(where, a, b):
     if where in D.HEADER_FIELDS or where.endswith(".count"):
         return None
     if where.startswith("questions"):
-        return name_problem(a[0]) if a[1:] == b[1:] else None
+        return name_problem(a[0], b[0]) if a[1:] == b[1:] else None
     return classify_rr(a, b)
 
 
@@ -346,6 +370,8 @@ def dns_case(ctx, r):
             else:
                 # reference view of what the DNS view itself was given (for the dnsmsg wrapper: mitmproxy's own re-pack)
                 diffs = D.diff(ref, dec)
+                if not diffs:
+                    ctx.count("dns_roundtrip_equal")
                 seen = set()
                 for where, a, b in diffs:
                     mech = classify_dns(where, a, b)
@@ -355,9 +381,8 @@ def dns_case(ctx, r):
                     seen.add(key)
                     outcome = "differs"
                     ctx.violation("dns-reencode-differs", {**what, "where": where, "original": a, "reencoded": b}, mechanism=mech)
-    nsec = tuple(min(len(ref[s_]), 2) for s_ in ("questions", "answers", "authorities", "additionals"))
-    types = tuple(sorted({x[1] for s_ in ("answers", "authorities", "additionals") for x in ref[s_]}))[:6]
-    ctx.case(("dns", wk, tuple(sorted(feats)), ref["z"] != 0, nsec, types, outcome), nontrivial=True, sample={"wrapper": wk, "wire": wire, "text": short(res.text, 300) if res else None})
+    types = tuple(sorted({x[1] if x[1] in (1, 2, 5, 6, 12, 15, 16, 28, 33, 41, 65) else 0 for s_ in ("answers", "authorities", "additionals") for x in ref[s_]}))[:3]
+    ctx.case(("dns", wk, "odd-label" in feats or "rdata-odd-label" in feats, "compressed" in feats, ref["z"] != 0, types, outcome), nontrivial=True, sample={"wrapper": wk, "wire": wire, "text": short(res.text, 300) if res else None})
 
 
 def run(ctx):
